@@ -526,6 +526,7 @@ func filterObs(obs []Ob, rulePrefix string) []Ob {
 }
 
 var c15Canaries = []Canary{
+	{Name: "r4-longest-wait", ExpectKey: "C15.R4#Concat:wait-is-the-smallest", Edits: []Edit{{File: "tq/transfer_queue.go", Find: "} else if wait < minWait {", Repl: "} else if wait > minWait {"}}},
 	{Name: "off-by-one-budget", ExpectKey: "C15.R2#CanRetry", Edits: []Edit{{File: "tq/transfer_queue.go", Find: "	return count, count < r.MaxRetries", Repl: "	return count, count <= r.MaxRetries"}}},
 	{Name: "append-outside-closure", ExpectKey: "C15.R1#retry-batch-append", Edits: []Edit{{File: "tq/transfer_queue.go", Find: "				} else {\n					q.errorc <- errors.Errorf(\"[%v] %v\", tr.Name, err)", Repl: "				} else if len(batch) == 1 {\n					next = append(next, objects.First())\n				} else {\n					q.errorc <- errors.Errorf(\"[%v] %v\", tr.Name, err)"}}},
 	{Name: "no-increment", ExpectKey: "C15.R", Edits: []Edit{{File: "tq/transfer_queue.go", Find: "		count := q.rc.Increment(t.Oid)\n", Repl: "		count := q.rc.CountFor(t.Oid)\n"}}},
